@@ -733,7 +733,7 @@ theorem recoverWal_spec (m1 : Mem) (ft : Nat) (hok : AllOk m1.frames.length m1.p
     exact ⟨Quiet.of_skel hs hq, by rw [hs.frames, hp]; rfl⟩
   · obtain ⟨ma, δ, h1, hv, _, _⟩ := applyRecords_view m1 m1.pending true hok
     simp only [h1]
-    have hb : ((if δ.nonEmpty = true then ma.rebuildIndexes δ.embs δ.inserted ft else ma.flushTantivy ft)).persistSketch.frames.map view
+    have hb : (((if δ.nonEmpty = true then ma.rebuildIndexes δ.embs δ.inserted ft else ma.flushTantivy ft)).persistSketch.bumpFooter ft).frames.map view
         = ma.frames.map view := by
       show ((if δ.nonEmpty = true then ma.rebuildIndexes δ.embs δ.inserted ft else ma.flushTantivy ft)).frames.map view = _
       split
@@ -741,7 +741,7 @@ theorem recoverWal_spec (m1 : Mem) (ft : Nat) (hok : AllOk m1.frames.length m1.p
       · exact (flushTantivy_skel ma ft).frames
     refine ⟨⟨?_, rfl⟩, ?_⟩
     · intro r hr; cases hr
-    · show ((if δ.nonEmpty = true then ma.rebuildIndexes δ.embs δ.inserted ft else ma.flushTantivy ft)).persistSketch.frames.map view = _
+    · show (((if δ.nonEmpty = true then ma.rebuildIndexes δ.embs δ.inserted ft else ma.flushTantivy ft)).persistSketch.bumpFooter ft).frames.map view = _
       rw [hb, hv]
 
 theorem openFrom_spec (m : Mem) (ft : Nat) (hok : AllOk m.frames.length m.pending) :
